@@ -1,7 +1,6 @@
 package sim
 
 import (
-	"fmt"
 	"path/filepath"
 	"testing"
 
@@ -33,34 +32,6 @@ func witnessInPlace(t *testing.T, old, nw Tree) *ApplyResult {
 	return ar
 }
 
-// old directory P (with a child) becomes new file P: Commit fails with ENOTEMPTY.
-func TestWitness_C02_dir_to_file(t *testing.T) {
-	a := witnessInPlace(t,
-		Tree{"d/x": &Entry{Kind: KFile, Data: Bytes(1, 1000)}, "keep": &Entry{Kind: KFile, Data: Bytes(2, 10)}},
-		Tree{"d": &Entry{Kind: KFile, Data: Bytes(3, 500)}, "keep": &Entry{Kind: KFile, Data: Bytes(2, 10)}})
-	fmt.Printf("dir->file: %+v\n", a)
-	if a != nil && a.Stage == "commit" && a.Err != nil {
-		fmt.Println("WITNESS-REPRODUCED C02/dir-to-file-commit")
-	} else {
-		fmt.Println("WITNESS-NOT-REPRODUCED C02/dir-to-file-commit")
-	}
-}
-
-// old file Q becomes a directory (or a symlink) while Q's unchanged content is reused at another
-// path: ensureDirsAndSymlinks removes Q before the pending transposition out of it is applied.
-func TestWitness_C02_kindchange_source(t *testing.T) {
-	b := witnessInPlace(t,
-		Tree{"q": &Entry{Kind: KFile, Data: Bytes(4, 1000)}},
-		Tree{"q/inner": &Entry{Kind: KFile, Data: Bytes(4, 1000)}})
-	c := witnessInPlace(t,
-		Tree{"f0": &Entry{Kind: KFile, Data: Bytes(5, 70000)}},
-		Tree{"f0": &Entry{Kind: KLink, Dest: "nowhere"}, "f1": &Entry{Kind: KFile, Data: Bytes(5, 70000)}})
-	fmt.Printf("file->dir: %+v\nfile->symlink: %+v\n", b, c)
-	rb := b != nil && (b.Err != nil || b.Invariant != "")
-	rc := c != nil && (c.Err != nil || c.Invariant != "")
-	if rb || rc {
-		fmt.Println("WITNESS-REPRODUCED C02/kindchange-destroys-transposition-source")
-	} else {
-		fmt.Println("WITNESS-NOT-REPRODUCED C02/kindchange-destroys-transposition-source")
-	}
-}
+// (The two C02 kind-change findings these witnesses were written for are repaired - /repo 33bc733 -
+// and are now exercised as ordinary cases by TestC02 and TestC02Directed. The helper stays for the
+// next finding that has to be recorded rather than repaired.)
